@@ -37,8 +37,28 @@ PROLOGUE = (
     '_cw = warnings.catch_warnings(record=True)\n'
     '_w = _cw.__enter__()\n'
     'warnings.simplefilter("always")\n'
+    # process-wide settings an import has no business touching (sys.meta_path is left out: six, which html5lib pulls in,
+    # registers an importer there)
+    'import logging, signal, locale, gc, threading, atexit, builtins, decimal\n'
+    'def _snap():\n'
+    '    return {\n'
+    '        "warnings.filters": [repr(f) for f in warnings.filters], "warnings.showwarning": id(warnings.showwarning),\n'
+    '        "sys.path": list(sys.path), "os.environ": sorted(os.environ.items()), "cwd": os.getcwd(),\n'
+    '        "recursionlimit": sys.getrecursionlimit(), "excepthook": id(sys.excepthook), "displayhook": id(sys.displayhook),\n'
+    '        "stdio": [id(sys.stdout), id(sys.stderr), id(sys.stdin)],\n'
+    '        "logging.root": [len(logging.root.handlers), logging.root.level, logging.root.manager.disable, logging.raiseExceptions],\n'
+    '        "signals": [repr(signal.getsignal(s)) for s in (signal.SIGINT, signal.SIGALRM, signal.SIGTERM, signal.SIGVTALRM, signal.SIGUSR1)],\n'
+    '        "locale": locale.setlocale(locale.LC_ALL), "switchinterval": sys.getswitchinterval(),\n'
+    '        "gc": [gc.isenabled(), gc.get_threshold()], "threads": threading.active_count(), "atexit": atexit._ncallbacks(),\n'
+    '        "path_hooks": len(sys.path_hooks), "builtins": sorted(dir(builtins)), "trace": [repr(sys.gettrace()), repr(sys.getprofile())],\n'
+    '        "decimal": repr(decimal.getcontext()), "umask": (lambda m: (os.umask(m), m)[1])(os.umask(0)),\n'
+    '        "int_max_str_digits": sys.get_int_max_str_digits(), "dont_write_bytecode": sys.dont_write_bytecode,\n'
+    '    }\n'
+    '_s0 = _snap()\n'
 )
 EPILOGUE = r'''
+_s1 = _snap()
+_state = [[k, repr(_s0[k])[:300], repr(_s1[k])[:300]] for k in _s0 if _s0[k] != _s1[k]]
 import bs4, soupsieve
 from bs4 import BeautifulSoup
 _pkg = os.path.dirname(os.path.realpath(soupsieve.__file__))
@@ -117,7 +137,7 @@ _out.append([_first + ['|'] + _a, _first + ['|'] + _b, None if not _a else ('1' 
 _out.append([_a, _b, _c.get('id') if _c is not None else None])
 _cw.__exit__(None, None, None)
 _bad = [[str(x.category.__name__), str(x.message)[:80], x.filename] for x in _w if os.path.realpath(x.filename).startswith(_pkg)]
-sys.stdout.write(json.dumps({'results': _out, 'warnings': _bad}) + '\n')
+sys.stdout.write(json.dumps({'results': _out, 'warnings': _bad, 'state': _state}) + '\n')
 '''
 
 
@@ -161,6 +181,8 @@ def judge(stmts, workdir):
         data = json.loads(lines[0])
     except ValueError:
         return fails + [('stdout-not-json', f'program {stmts}: {lines[0][:200]!r}')]
+    if data.get('state'):
+        fails.append(('import-changes-interpreter-state', f'program {stmts}: {data["state"][0][0]} before {data["state"][0][1][:150]} after {data["state"][0][2][:150]}'))
     if data['warnings']:
         fails.append(('import-warns', f'program {stmts}: {data["warnings"][:2]}'))
     for a, b, c in data['results']:
